@@ -74,7 +74,7 @@ def canon_kind(kind: str, v: Any, in_list: bool = False) -> Any:
         return ["lss", sorted([k, t] for k, t in v.items())]
     if head == "node":
         return canon(v)
-    if head == "list":
+    if head in ("list", "list1"):
         return ["list", [canon_kind(arg, x) for x in v]]
     if head == "set":
         return ["set", sorted((canon_kind(arg, x) for x in v), key=_key)]
